@@ -74,6 +74,7 @@ pub fn run_pair(f: &[&str]) -> Vec<(String, String)> {
             seen_read: 0,
         }
     };
+    #[cfg(tungstenite_verif)]
     tungstenite::protocol::frame::verif_set_mask_seed(seed);
     let mut c = mk(Role::Client);
     let mut s = mk(Role::Server);
